@@ -28,6 +28,7 @@ type Frame struct {
 	results  []*Val // for ensures evaluation
 	inlined  bool
 	backEdge map[[2]int]bool
+	inferred map[*ssa.BasicBlock][]inferredInv
 }
 
 type exitInfo struct {
@@ -428,8 +429,109 @@ func (c *Ctx) loopSpec(fr *Frame, ord int) *LoopSpec {
 	if fr.con == nil {
 		return nil
 	}
-	return fr.con.Loops[ord]
+	ls := fr.con.Loops[ord]
+	if len(fr.con.LoopAll) == 0 {
+		return ls
+	}
+	// clauses that hold at every loop of the function (auto contracts: buffer invariant, config frame)
+	m := &LoopSpec{}
+	if ls != nil {
+		m.Invariants = append(m.Invariants, ls.Invariants...)
+		m.Decreases = ls.Decreases
+	}
+	m.Invariants = append(m.Invariants, fr.con.LoopAll...)
+	return m
 }
+
+// inferredInv is a loop invariant found by inspection of the SSA (checked like a written one).
+type inferredInv struct {
+	name string
+	f    func(st *State) string
+}
+
+// inferInvariants: (A) bounds of the compiler-generated range index, (B) lower bounds of counters that
+// start at a constant and are only incremented.
+func (c *Ctx) inferInvariants(fr *Frame, head *ssa.BasicBlock, loop map[*ssa.BasicBlock]bool) []inferredInv {
+	var out []inferredInv
+	if head.Comment == "rangeindex.loop" {
+		var cell *ssa.Alloc
+		var bound ssa.Value
+		for _, in := range head.Instrs {
+			if st, ok := in.(*ssa.Store); ok {
+				if al, ok := st.Addr.(*ssa.Alloc); ok && al.Comment == "rangeindex" {
+					cell = al
+				}
+			}
+			if b, ok := in.(*ssa.BinOp); ok && b.Op == token.LSS {
+				bound = b.Y
+			}
+		}
+		if cell != nil && bound != nil && fr.isReg[cell] {
+			if _, ok := fr.vals[bound]; ok || isConst(bound) {
+				out = append(out, inferredInv{"range-index", func(st *State) string {
+					ri := c.Load(st, &Ptr{Reg: &regKey{frame: fr.id, al: cell}, Elem: types.Typ[types.Int]}).Term
+					n := c.val(fr, st, bound).Term
+					return and(app(">=", ri, "(- 1)"), or(app("<", ri, n), eq(ri, "(- 1)")))
+				}})
+			}
+		}
+	}
+	// monotone counters
+	stores := map[*ssa.Alloc][]*ssa.Store{}
+	for _, b := range fr.fn.Blocks {
+		for _, in := range b.Instrs {
+			if st, ok := in.(*ssa.Store); ok {
+				if al, ok := st.Addr.(*ssa.Alloc); ok && fr.isReg[al] {
+					stores[al] = append(stores[al], st)
+				}
+			}
+		}
+	}
+	for al, sts := range stores {
+		if _, _, isInt := intInfo(al.Type().(*types.Pointer).Elem()); !isInt || al.Comment == "rangeindex" || al.Comment == "" {
+			continue
+		}
+		var init *ssa.Const
+		ok := true
+		inLoop := 0
+		for _, st := range sts {
+			if loop[st.Block()] {
+				inLoop++
+				b, isBin := st.Val.(*ssa.BinOp)
+				if !isBin || b.Op != token.ADD {
+					ok = false
+					break
+				}
+				ld, isLd := b.X.(*ssa.UnOp)
+				k, isK := b.Y.(*ssa.Const)
+				if !isLd || ld.X != al || !isK || k.Value == nil || k.Int64() <= 0 {
+					ok = false
+					break
+				}
+			} else {
+				k, isK := st.Val.(*ssa.Const)
+				if !isK || k.Value == nil || init != nil || !st.Block().Dominates(head) {
+					ok = false
+					break
+				}
+				init = k
+			}
+		}
+		if !ok || init == nil || inLoop == 0 {
+			continue
+		}
+		cell := al
+		lo := c.constVal(init).Term
+		out = append(out, inferredInv{"counter-" + al.Comment, func(st *State) string {
+			v := c.Load(st, &Ptr{Reg: &regKey{frame: fr.id, al: cell}, Elem: cell.Type().(*types.Pointer).Elem()}).Term
+			return app(">=", v, lo)
+		}})
+	}
+	sort.Slice(out, func(i, j int) bool { return out[i].name < out[j].name })
+	return out
+}
+
+func isConst(v ssa.Value) bool { _, ok := v.(*ssa.Const); return ok }
 
 // enterLoop: check the invariant on entry, havoc what the loop writes, assume the invariant.
 func (c *Ctx) enterLoop(fr *Frame, head *ssa.BasicBlock, ord int, st *State) *State {
@@ -445,10 +547,21 @@ func (c *Ctx) enterLoop(fr *Frame, head *ssa.BasicBlock, ord int, st *State) *St
 	}
 	// dry run to find what the loop writes
 	loop := naturalLoop(head, fr.backEdge)
+	inferred := c.inferInvariants(fr, head, loop)
+	if fr.inferred == nil {
+		fr.inferred = map[*ssa.BasicBlock][]inferredInv{}
+	}
+	fr.inferred[head] = inferred
+	for _, iv := range inferred {
+		c.oblige("inv-entry", fmt.Sprintf("%s#loop%d.entry[inferred:%s]", name, ord, iv.name), "", nil, iv.f(st), head.Instrs[0].Pos(), "inferred invariant "+iv.name)
+	}
 	c.watermark = c.nsym
 	ws := c.dryRun(fr, loop, st)
 	st = st.clone()
 	c.havocWrites(fr, st, ws, fmt.Sprintf("L%d", ord))
+	for _, iv := range inferred {
+		c.assume(iv.f(st))
+	}
 	if spec != nil {
 		for _, inv := range spec.Invariants {
 			g := c.evalClause(fr, st, inv, nil)
@@ -510,10 +623,33 @@ func (c *Ctx) dryRun(fr *Frame, loop map[*ssa.BasicBlock]bool, st *State) *write
 
 // havocWrites replaces everything in ws by fresh values.
 func (c *Ctx) havocWrites(fr *Frame, st *State, ws *writeSet, tag string) {
-	if ws.everything {
-		c.havocEverything(st)
-	} else if ws.everythingUnprotected {
-		c.havocEverythingButGhost(st)
+	if ws.everything || ws.everythingUnprotected {
+		// components every "assigns everything" callee in the loop keeps: unchanged for objects older than the loop
+		var kl []string
+		for k := range ws.kept {
+			kl = append(kl, k)
+		}
+		sort.Strings(kl)
+		terms := make([]string, len(kl))
+		for i, k := range kl {
+			terms[i] = c.H(st, k, ws.kept[k])
+		}
+		nextPre := c.next(st)
+		if ws.everything {
+			c.havocEverything(st)
+		} else {
+			c.havocEverythingButGhost(st)
+		}
+		for i, k := range kl {
+			if _, written := ws.comps[k+"\x00"+ws.kept[k]]; written {
+				continue // also written directly in the loop: stays unknown
+			}
+			c.nsym++
+			name := sym(fmt.Sprintf("%s@%d_kept", k, c.nsym))
+			c.declare(name, ws.kept[k])
+			c.assumeAlways(fmt.Sprintf("(forall ((r Int)) (! (=> (< r %s) (= (select %s r) (select %s r))) :pattern ((select %s r))))", nextPre, name, terms[i], name))
+			st.heap[k] = name
+		}
 	}
 	var rk []regKey
 	for k := range ws.regs {
@@ -678,6 +814,14 @@ func (c *Ctx) edge(fr *Frame, from, to *ssa.BasicBlock, st *State, cond string, 
 	if fr.backEdge[[2]int{from.Index, to.Index}] {
 		ord := fr.loopOrd[to]
 		spec := c.loopSpec(fr, ord)
+		if len(fr.inferred[to]) > 0 {
+			save := c.curReach
+			c.curReach = cond
+			for _, iv := range fr.inferred[to] {
+				c.oblige("inv-preserve", fmt.Sprintf("%s#loop%d.preserve[inferred:%s]", c.relName(fr.fn), ord, iv.name), "", nil, iv.f(st), to.Instrs[0].Pos(), "inferred invariant "+iv.name)
+			}
+			c.curReach = save
+		}
 		if spec == nil {
 			return
 		}
